@@ -209,6 +209,8 @@ pub fn run_seq(run: &mut Run) {
     };
     let res = explore(&m, &cfg);
     super::seq_report(run, &m, &res, &cfg);
+    let deep = ["Set { key: \"k\", val: \"1\" }", "SetSafe { key: \"k\", ver: CurM1 }", "SetSafe { key: \"k\", ver: Cur }", "Inc { key: \"k\" }", "Remove { key: \"k\" }", "Snapshot"];
+    super::deep_pass(run, &m, &deep, if quick { 6 } else { 8 }, if quick { 30 } else { 900 });
     run.cov("seq_distinct_outcomes", serde_json::json!(m.outcomes.lock().unwrap().iter().cloned().collect::<Vec<_>>()));
     run.assume("set-safe with version -1 is the unversioned sentinel (treated as a plain write)");
     run.assume("set-safe to a key that was persisted and then removed: either outcome accepted (statement ambiguous: absent to get, tombstone version in get-safe)");
